@@ -228,6 +228,7 @@ func main() {
 	hostileClients(run, w, root, direct, tlsL)
 	fdFlood(run, w)
 	concurrentRejectedConnects(run, w, viaUp)
+	parallelFreshInterceptions(run, w, direct)
 	for _, c := range children {
 		if !c.cli.Alive() {
 			run.Violation("process-died:"+c.name, "forwarder child exited: "+lib.Trunc(tail(c.cli.Output(), 2000), 2000), -1, nil)
@@ -349,6 +350,54 @@ func concurrentRejectedConnects(run *lib.Run, w *world, c *child) {
 		run.Violation("concurrent-connects:"+map[bool]string{true: "answered-wrongly", false: "process-died"}[c.cli.Alive()], fmt.Sprintf("%d of 800 CONNECTs sent by 32 clients at once (the upstream proxy rejects them with 403) were not answered 403; process alive: %v; %s", n, c.cli.Alive(), lib.Trunc(tail(c.cli.Output(), 1200), 1200)), idx, nil)
 	}
 	probe(run, c, idx, "800 concurrent rejected CONNECTs")
+}
+
+// parallelFreshInterceptions: browsers open several connections to a new origin at once. 24
+// clients CONNECT to the same never-seen host at the same moment and start a TLS handshake, for
+// 60 hosts in a row; every handshake must complete and the process must stay up.
+func parallelFreshInterceptions(run *lib.Run, w *world, c *child) {
+	const idx = 2_200_000
+	if !run.Want(idx) {
+		return
+	}
+	run.Case(idx, "mitm|parallel-connects-to-a-fresh-host", nil)
+	var bad atomic.Int64
+	hosts := run.N(60, 600)
+	for h := 0; h < hosts && c.cli.Alive(); h++ {
+		host := fmt.Sprintf("fresh%d.faulttls.test", h)
+		var wg sync.WaitGroup
+		start := make(chan struct{})
+		for k := 0; k < 24; k++ {
+			wg.Add(1)
+			go func() {
+				defer wg.Done()
+				st, err := dialChild(c)
+				if err != nil {
+					bad.Add(1)
+					return
+				}
+				defer st.Close()
+				<-start
+				fmt.Fprintf(st.C, "CONNECT %s:443 HTTP/1.1\r\nHost: %s:443\r\n\r\n", host, host)
+				if m, pst, _ := st.ReadResponse("CONNECT", 10*time.Second); pst != lib.POK || m.Status != 200 {
+					bad.Add(1)
+					return
+				}
+				tc := tls.Client(st.C, &tls.Config{InsecureSkipVerify: true, ServerName: host})
+				tc.SetDeadline(time.Now().Add(10 * time.Second))
+				if err := tc.Handshake(); err != nil || len(tc.ConnectionState().PeerCertificates) == 0 || tc.ConnectionState().PeerCertificates[0].VerifyHostname(host) != nil {
+					bad.Add(1)
+				}
+			}()
+		}
+		close(start)
+		wg.Wait()
+	}
+	run.Count("parallel_fresh_handshakes", int64(hosts*24))
+	if n := bad.Load(); n > 0 || !c.cli.Alive() {
+		run.Violation("parallel-fresh-interceptions:"+map[bool]string{true: "handshake-failed", false: "process-died"}[c.cli.Alive()], fmt.Sprintf("%d of %d intercepted handshakes (24 clients at once per new host) failed; process alive: %v; %s", n, hosts*24, c.cli.Alive(), lib.Trunc(tail(c.cli.Output(), 1200), 1200)), idx, nil)
+	}
+	probe(run, c, idx, "parallel interceptions of fresh hosts")
 }
 
 // probe: a healthy request through child c must be served.
